@@ -50,12 +50,25 @@ Proof.
     repeat (apply Hset in H; destruct H as [->|H]; [cbn; auto|]); auto.
 Qed.
 
+(** with passthru mode: additionally the four ppt_* keys *)
+Lemma event_dict_keys : forall opts topic st disc pub recv k,
+    dhas (event_dict opts topic st disc pub recv) k = true ->
+    In k ppt_keys \/ k = "topic" \/ k = "publisher" \/ k = "publisher_authid" \/ k = "publisher_authrole".
+Proof.
+  intros opts topic st disc pub recv k H.
+  destruct (smem k ppt_keys) eqn:E; [left; now apply smem_In|right].
+  apply (event_details_keys topic st disc pub recv).
+  apply (amem_true_iff String.eqb) in H. destruct H as (v & H). fold (dget (event_dict opts topic st disc pub recv) k) in H.
+  rewrite event_dict_other in H by (intros HI; apply smem_In in HI; congruence).
+  apply (amem_true_iff String.eqb). eauto.
+Qed.
+
 Lemma dhas_dget : forall d k, dhas d k = true <-> exists v, dget d k = Some v.
 Proof. intros. apply (amem_true_iff String.eqb). Qed.
 
 (** ** Pointwise reading of [publish_exact] *)
 Theorem event_in_iff : forall cfg lookup now b pg pub req opts topic args kw b' pg' o,
-    broker_wf b -> lookup_ok lookup -> pub_accepted cfg opts topic ->
+    broker_wf b -> lookup_ok lookup -> pub_accepted cfg pub opts topic ->
     publish cfg lookup now b pg pub req opts topic args kw = (b', pg', o) ->
     forall r id pubid d a k',
       In (r, REvent id pubid d a k') o <->
@@ -64,7 +77,7 @@ Theorem event_in_iff : forall cfg lookup now b pg pub req opts topic args kw b' 
                    ~ (r = s_id pub /\ exclude_me_of opts = true) /\
                    lookup r = Some rs /\ allowed (make_filter opts) r (s_details rs) = true /\
                    pubid = pg + 1 /\ a = args /\ k' = kw /\
-                   d = event_details topic (is_pattern (kind s)) (opt_bool opts "disclose_me") pub (Some rs).
+                   d = event_dict opts topic (is_pattern (kind s)) (opt_bool opts "disclose_me") pub (Some rs).
 Proof.
   intros cfg lookup now b pg pub req opts topic args kw b' pg' o W Hok Hacc H r id pubid d a k'.
   destruct (publish_exact _ _ _ _ _ _ _ _ _ _ _ _ _ _ W Hok Hacc H) as (_ & _ & I).
@@ -81,7 +94,7 @@ Qed.
 
 (** ** Disclosure *)
 Theorem event_disclose_iff : forall cfg lookup now b pg pub req opts topic args kw b' pg' o,
-    broker_wf b -> lookup_ok lookup -> pub_accepted cfg opts topic ->
+    broker_wf b -> lookup_ok lookup -> pub_accepted cfg pub opts topic ->
     publish cfg lookup now b pg pub req opts topic args kw = (b', pg', o) ->
     forall r id pubid d a k', In (r, REvent id pubid d a k') o ->
     exists rs, lookup r = Some rs /\
@@ -102,8 +115,10 @@ Proof.
   assert (Hd : discloses (opt_bool opts "disclose_me") rs = true <->
                opt_bool opts "disclose_me" = true /\ c_disclose cfg = true /\
                sess_feature rs "subscriber" f_pub_ident = true).
-  { unfold discloses. rewrite andb_true_iff. destruct Hacc as [_ Hc]. split; [intros [? ?]; auto|tauto]. }
-  rewrite !dhas_dget, event_details_publisher, event_details_authid, event_details_authrole.
+  { unfold discloses. rewrite andb_true_iff. destruct Hacc as (_ & _ & Hc). split; [intros [? ?]; auto|tauto]. }
+  rewrite !dhas_dget.
+  rewrite !event_dict_other by (unfold ppt_keys; cbn; intuition discriminate).
+  rewrite event_details_publisher, event_details_authid, event_details_authrole.
   destruct (discloses (opt_bool opts "disclose_me") rs).
   - assert (HA : opt_bool opts "disclose_me" = true /\ c_disclose cfg = true /\
                  sess_feature rs "subscriber" f_pub_ident = true) by (apply Hd; reflexivity).
@@ -122,23 +137,24 @@ Qed.
 
 Theorem disallowed_disclose_refused : forall cfg lookup now b pg pub req opts topic args kw,
     valid_uri (c_strict cfg) "" topic = true ->
+    publish_aborts cfg pub opts topic = false ->   (* the passthru violation is checked first *)
     opt_bool opts "disclose_me" = true -> c_disclose cfg = false ->
     publish cfg lookup now b pg pub req opts topic args kw =
     (b, pg, if opt_bool opts "acknowledge"
             then [(s_id pub, RError c_PUBLISH req [] e_disclose_me [] [])] else []).
-Proof. intros. unfold publish. rewrite H, H0, H1. reflexivity. Qed.
+Proof. intros. unfold publish. rewrite H, H0, H1, H2. reflexivity. Qed.
 
 (** ** The event for (r, s) does not depend on anything else in the broker *)
 Theorem event_details_recipient_only :
   forall cfg lookup now1 now2 b1 b2 pg pub req opts topic args kw b1' pg1 o1 b2' pg2 o2 r id t k,
-    broker_wf b1 -> broker_wf b2 -> lookup_ok lookup -> pub_accepted cfg opts topic ->
+    broker_wf b1 -> broker_wf b2 -> lookup_ok lookup -> pub_accepted cfg pub opts topic ->
     holds_sig b1 r id t k -> holds_sig b2 r id t k ->
     publish cfg lookup now1 b1 pg pub req opts topic args kw = (b1', pg1, o1) ->
     publish cfg lookup now2 b2 pg pub req opts topic args kw = (b2', pg2, o2) ->
     (forall pubid d a k', In (r, REvent id pubid d a k') o1 <-> In (r, REvent id pubid d a k') o2) /\
     (forall pubid d a k' rs, In (r, REvent id pubid d a k') o1 -> lookup r = Some rs ->
         pubid = pg + 1 /\ a = args /\ k' = kw /\
-        d = event_details topic (is_pattern k) (opt_bool opts "disclose_me") pub (Some rs)).
+        d = event_dict opts topic (is_pattern k) (opt_bool opts "disclose_me") pub (Some rs)).
 Proof.
   intros cfg lookup now1 now2 b1 b2 pg pub req opts topic args kw b1' pg1 o1 b2' pg2 o2 r id t k
          W1 W2 Hok Hacc (s1 & E1 & Ht1 & Hk1 & Hr1) (s2 & E2 & Ht2 & Hk2 & Hr2) H1 H2.
